@@ -119,6 +119,14 @@ CLAIMED = {
              "diagnostic text; the validator rejects every non-fragment URL component; misses return errors; a schema reference "
              "evolves only use-site attributes; the dependency registry does not alias. Not decided: equality of generated code.",
         ref="DESIGN.md §4 C20"),
+    "C16": dict(
+        technique="who-may-read analysis of every Config field (typed receivers from the abstract interpreter + template attribute reads) against a per-option table, identity check of the plumbing, uniform-application sibling rules",
+        text="Effect-scope clauses: the 17 Config fields are copied unmodified from ConfigFile/CLI (defaults only under `is None`); "
+             "all 65 reads of Config fields in Python and templates are inside the function/template documented for the option and "
+             "no option is unread; all 17 writes pass the configured encoding; all 25 name-constructor sites pass field_prefix "
+             "(2 frozen constants); media types are classified only on get_content_type's result while the raw key is what is "
+             "emitted; tags keep document order and tags[:1] applies iff generate_all_tags is off. Not decided: two-run equalities.",
+        ref="DESIGN.md §4 C16"),
 }
 
 NOT_APPLICABLE = {
